@@ -6,12 +6,17 @@ Case format: '10 | op ; op ; ...' over a growing pool of handle slots (slot ids 
 Output: three rows per op: result [code ok new-slot], payload destructors that ran, and the observation of the whole pool
 (per slot: kind 0 dead/1 empty CArc/2 CArc/3 CArcSome/4 Arc, strong count of its target, payload it dereferences to).
 Monitor (model independent): strong count == number of live handles to the allocation after every op; allocator balance,
-no double free, nothing leaked after the final drops."""
+no double free, nothing leaked after the final drops.
+'110 <threads> <rounds> | history': the same history run concurrently by several threads, each on a pool of its own, over SHARED allocations (creation op k
+hands every thread a clone of one root Arc); output per op: result row and the kinds of the thread's handles — by theorem C10_thread_view these do not
+depend on the counts, so every thread and round must reproduce the sequential model's rows; monitor: no payload destroyed while the roots live, every
+root's strong count back to 1 after the threads are done, every payload destroyed once when the roots go."""
 PROP = "C10"
 PROP_V = "props/C10.v"
 HARNESS = "rt"
 RULE = ("op scripts over a pool of CArc/CArcSome/Arc handles: exhaustive up to a length bound over a 13-op alphabet with slot "
         "arguments < 3, plus random scripts biased to valid targets (a separate 10% stream of ill-targeted ops); "
+        "the same scripts run by 2-8 threads x 5-50 rounds over shared allocations; "
         "non-trivial = at least one clone/take/transpose and one drop; distinct by exact text")
 TRUSTED = [
     "hand-written model coq/model/Arc.v of cglue/src/arc.rs (three-field handles, stored fn pointers tagged by module); tied by differential execution against the real types",
@@ -112,6 +117,14 @@ def gen_cases(rng, tier):
             t = op.split()[0]
             opk[t] = opk.get(t, 0) + 1
     dist["random_op_kinds"] = opk
+    # the same operations issued concurrently: one history on several threads over shared allocations ('110 <threads> <rounds> | history')
+    nthr = {"quick": 250, "search": 400}.get(tier, 3000)
+    r2 = rng.fork("threads")
+    fixed = ["0 1 7 ; 6 0 ; 7 0 ; 8 2 ; 1 1 9 ; 6 4 ; 11 4 ; 12 1", "1 1 5 ; 6 0 ; 6 0 ; 9 1 ; 10 3 ; 6 4 ; 12 0", "2 1 3 ; 6 0 ; 3 0 ; 4 1 ; 6 2 ; 6 3 ; 11 3"]
+    for k in range(nthr):
+        body = fixed[k] if k < len(fixed) else random_script(r2, 30 if tier == "quick" else 80).split("|", 1)[1].strip()
+        cases.append("110 %d %d | %s" % (r2.choice([2, 3, 4, 8]), r2.choice([5, 20, 50]), body))
+    dist["threaded_histories"] = nthr
     return cases, dist
 
 
